@@ -130,6 +130,13 @@ def run_cleans(curve, ref, cleans, out, klass, minimal=None, tol=None):
                 lossy = True
                 out.exclude("tolerance-accepted-inexact-removal")
                 return None
+            if tol in (None, "default") and ref.w is not None:
+                # rational: weights constant to within the tolerance are dropped, a removal exact to within the
+                # tolerance is accepted - allowed ("never by more than the tolerance allows")
+                dev, _ = oracle.max_deviation(ref, after)
+                if dev <= F(1, 10 ** 6) * max([abs(x) for pt in ref.P for x in pt] + [F(1)]):
+                    out.exclude("tolerance-accepted-inexact-removal")
+                    return None
             out.fail("function-changed", klass,
                      f"{name}() changed the curve U={ref.U} P={ref.P} w={ref.w}: at u={wit[0]} {wit[1]} -> {wit[2]} (now U={after.U})")
             return None
